@@ -66,6 +66,19 @@ def apply_delete(doc, ptext, proc=None):
         return "crash", "%s@%s" % (type(ex).__name__, qrun.where(ex))
 
 
+def apply_delete_gathered(doc, ptext):
+    """Delete what a query gathered (get_nodes + delete_gathered_nodes)."""
+    proc = Processor(corpus.LOG, doc)
+    try:
+        gathered = list(proc.get_nodes(ptext, mustexist=True))
+        proc.delete_gathered_nodes(gathered)
+        return "ok", None
+    except YAMLPathException as ex:
+        return "ype", type(ex).__name__
+    except Exception as ex:               # pylint: disable=broad-except
+        return "crash", "%s@%s" % (type(ex).__name__, qrun.where(ex))
+
+
 def model_set(doc, segs, value):
     """-> ('doc', canon, n) | ('unspecified', why) | ('error',) | ('nomatch',)"""
     try:
